@@ -15,15 +15,15 @@ STATE_CLAUSES = {
     "C18": [],
     "C01": ["feasible", "busy_op", "proc_inner", "past"],
     "C02": ["busy_op", "no_overdue", "durations"],
-    "C03": ["placement", "loc", "mach_hold", "agv_hold", "claims", "flags", "agv_phase", "agv_load"],
+    "C03": ["placement", "loc", "mach_hold", "agv_hold", "claims", "flags", "agv_phase", "agv_load", "depi"],
     "C05": ["placement", "loc", "mach_hold", "agv_hold", "claims", "capacity", "flags", "feasible", "no_overdue",
             "past", "busy_op", "proc_inner", "output_done", "outages", "outage_nonneg", "agv_phase", "idle_unclaimed",
-            "sto_ok"],
-    "C07": ["agv_phase", "agv_hold", "no_overdue", "travel_gap"],
-    "C08": ["capacity"],
+            "sto_ok", "depi"],
+    "C07": ["agv_phase", "agv_hold", "no_overdue", "travel_gap", "depi"],
+    "C08": ["capacity", "depi"],
     "C09": ["busy_op", "setup_gap"],
     "C10": ["outages", "outage_nonneg"],
-    "C11": [],
+    "C11": ["depi"],
     "C12": ["no_overdue", "past", "idle_unclaimed", "sto_ok"],
     "C20": [],
 }
